@@ -354,12 +354,12 @@ func (f *Flow) Reach(q Query) ([]Pt, bool) {
 				contradiction := false
 				var add []atomFact
 				for _, af := range atomsOnEdge(cond, i) {
-					t := exprStr(af.E)
+					t, truth := canonAtom(af)
 					if _, tracked := corr[t]; !tracked {
 						continue
 					}
 					if old, has := facts[t]; has {
-						if old != af.T {
+						if old != truth {
 							contradiction = true
 						}
 					} else {
@@ -375,7 +375,8 @@ func (f *Flow) Reach(q Query) ([]Pt, bool) {
 						nf[k] = v
 					}
 					for _, af := range add {
-						nf[exprStr(af.E)] = af.T
+						t, truth := canonAtom(af)
+						nf[t] = truth
 					}
 					facts = nf
 				}
@@ -437,7 +438,7 @@ func (f *Flow) corrAtoms() map[string][]types.Object {
 		seenHere := map[string]bool{}
 		for si := 0; si < 2; si++ {
 			for _, af := range atomsOnEdge(cond, si) {
-				t := exprStr(af.E)
+				t, _ := canonAtom(af)
 				if seenHere[t] {
 					continue
 				}
@@ -1007,6 +1008,15 @@ func (p *Prog) MayCall(fi *FuncInfo, pred CallPred, depth int, seen map[*types.F
 type cfgBlock = cfg.Block
 
 // atomFact: on some edge, the atomic condition E is known to have truth value T.
+// canonAtom: `x != y` is the same fact as `x == y` with the opposite truth (so that `if err == nil {…}; if err != nil`
+// correlates).
+func canonAtom(af atomFact) (string, bool) {
+	if be, ok := ast.Unparen(af.E).(*ast.BinaryExpr); ok && be.Op == token.NEQ {
+		return exprStr(be.X) + " == " + exprStr(be.Y), !af.T
+	}
+	return exprStr(af.E), af.T
+}
+
 type atomFact struct {
 	E ast.Expr
 	T bool
@@ -1181,7 +1191,6 @@ func assignsSame(info *types.Info, n ast.Node, obj types.Object, wantNil, isBool
 	})
 	return same
 }
-
 
 func isBoolType(t types.Type) bool {
 	b, ok := t.Underlying().(*types.Basic)
